@@ -72,6 +72,9 @@ func main() {
 	for i := 0; i < c.Pick(4, 40); i++ { // series ids under a small series limit
 		jobs = append(jobs, job{"limits", i, false})
 	}
+	for i := 0; i < c.Pick(10, 200); i++ { // the real memdb metadata/index workers with flush events between the rows
+		jobs = append(jobs, job{"memdb", i, false})
+	}
 	scratch := c.Scratch()
 	results := make([]*caseResult, len(jobs))
 	raceOut := make([]string, len(jobs))
